@@ -65,3 +65,274 @@ func VF_C03_chunks() {
 	}
 	vfReach("C03_chunks")
 }
+
+// ---------------------------------------------------------------------------
+// token factories
+
+type vfAliaser struct{}
+
+func (vfAliaser) Alias(p string) string { return "ALIAS<" + p + ">" }
+
+// vfFactory wires the strategies in the documented order: registered
+// functions first (env, envInt, todo and one user function), then %%,
+// reference, unexpected function, unexpected token, string.
+func vfFactory(userFn string) *StrategyFactory {
+	f := NewStrategyFactory(
+		FactoryPercentMark{},
+		FactoryReference{},
+		FactoryUnexpectedFunction{},
+		FactoryUnexpectedToken{},
+		FactoryString{},
+	)
+	r := NewFuncRegisterer(f, vfAliaser{})
+	r.RegisterFunc("env", "", "getEnv")
+	r.RegisterFunc("envInt", "", "getEnvInt")
+	r.RegisterFunc("todo", "", "paramTodo")
+	if userFn != "" {
+		r.RegisterFunc(userFn, "my/pkg", "UserFn")
+	}
+	return f
+}
+
+const (
+	refLiteral = iota
+	refPercent
+	refCall
+	refReference
+	refErrFunc
+	refErrToken
+)
+
+// Documented grammars (docs/PARAMETERS.md, docs/META.md), written
+// independently of internal/pkg/regex.
+const (
+	docGoIdent   = `\A[A-Za-z][A-Za-z0-9_]*\z`
+	docParamName = `\A[A-Za-z]([._-]?[A-Za-z0-9])*\z`
+	docNoNewline = `\A[^\n]*\z`
+)
+
+// vfInner strips the surrounding % of a chunk of at least two runes.
+func vfInner(c string) (string, bool) {
+	if vfRuneLen(c) < 2 || !strings.HasPrefix(c, "%") || !strings.HasSuffix(c, "%") {
+		return "", false
+	}
+	return strings.TrimSuffix(strings.TrimPrefix(c, "%"), "%"), true
+}
+
+// vfCallOf: inner == f "(" args ")" with args free of newlines.
+func vfCallOf(inner, f string) (args string, ok bool) {
+	if !strings.HasPrefix(inner, f+"(") || !strings.HasSuffix(inner, ")") {
+		return "", false
+	}
+	if vfRuneLen(inner) < vfRuneLen(f)+2 {
+		return "", false
+	}
+	args = strings.TrimSuffix(strings.TrimPrefix(inner, f+"("), ")")
+	if !vfInRe(args, docNoNewline) {
+		return "", false
+	}
+	return args, true
+}
+
+// refKind: DESIGN A.2.
+func refKind(c string, fns []string) (kind int, name string, args string) {
+	inner, wrapped := vfInner(c)
+	if wrapped {
+		for _, f := range fns {
+			if a, ok := vfCallOf(inner, f); ok {
+				return refCall, f, a
+			}
+		}
+		if c == "%%" {
+			return refPercent, "", ""
+		}
+		if vfInRe(inner, docParamName) {
+			return refReference, inner, ""
+		}
+		if vfInRe(inner, `\A[A-Za-z][A-Za-z0-9_]*\([^\n]*\)\z`) {
+			return refErrFunc, "", ""
+		}
+		return refErrToken, "", ""
+	}
+	return refLiteral, "", ""
+}
+
+func init() {
+	vfRegister("VF_C03_kind", VF_C03_kind)
+	vfRegister("VF_C03_gocode", VF_C03_gocode)
+	vfRegister("VF_C03_double", VF_C03_double)
+	vfRegister("VF_C03_tokenize", VF_C03_tokenize)
+}
+
+// VF_C03_kind: every single chunk is classified as documented.
+func VF_C03_kind() {
+	c := vfString("chunk")
+	u := vfString("userFn")
+	n := vfBound("kind.len", 6, 9)
+	vfAssume(vfRuneLen(c) <= n)
+	vfAssume(vfRuneLen(u) <= 3 && vfInRe(u, docGoIdent))
+	vfAssume(u != "env" && u != "envInt" && u != "todo")
+	// a chunk as the chunker produces it: no % inside, or %...% with none inside
+	vfAssume(vfInRe(c, `\A([^%]*|%[^%]*%)\z`))
+
+	tok, err := vfFactory(u).Create(c)
+	kind, name, args := refKind(c, []string{"env", "envInt", "todo", u})
+
+	switch kind {
+	case refErrFunc:
+		vfAssert(err != nil, "unknown function is rejected")
+		if err != nil {
+			vfAssert(strings.Contains(err.Error(), "unexpected function"), "diagnostic says unexpected function")
+			vfAssert(strings.Contains(err.Error(), vfQuote(c)), "diagnostic names the token")
+		}
+	case refErrToken:
+		vfAssert(err != nil, "malformed %token% is rejected")
+		if err != nil {
+			vfAssert(strings.Contains(err.Error(), "unexpected token"), "diagnostic says unexpected token")
+			vfAssert(strings.Contains(err.Error(), vfQuote(c)), "diagnostic names the token")
+		}
+	default:
+		vfAssert(err == nil, "well-formed chunk is accepted")
+	}
+	if err == nil {
+		switch kind {
+		case refLiteral:
+			vfAssert(tok.Kind == KindString && len(tok.DependsOn) == 0, "literal: string token without dependency")
+			vfAssert(strings.Contains(tok.Code, "return "+vfQuote(c)+", nil"), "literal: code returns the quoted chunk")
+		case refPercent:
+			vfAssert(tok.Kind == KindString && len(tok.DependsOn) == 0, "%%: string token without dependency")
+			vfAssert(strings.Contains(tok.Code, "return \"%\", nil"), "%%: code returns a single %")
+		case refReference:
+			vfAssert(tok.Kind == KindReference, "reference: kind")
+			vfAssert(len(tok.DependsOn) == 1 && tok.DependsOn[0] == name, "reference: depends on exactly the named parameter")
+			vfAssert(strings.Contains(tok.Code, "getParam("+vfQuote(name)+")"), "reference: code reads the named parameter")
+		case refCall:
+			vfAssert(tok.Kind == KindFunc && len(tok.DependsOn) == 0, "call: func token without dependency")
+			goFn := "ALIAS<my/pkg>.UserFn"
+			switch name {
+			case "env":
+				goFn = "getEnv"
+			case "envInt":
+				goFn = "getEnvInt"
+			case "todo":
+				goFn = "paramTodo"
+			}
+			if args == "" {
+				vfAssert(strings.Contains(tok.Code, "callProvider("+goFn+")"), "call: provider called without arguments")
+			} else {
+				vfAssert(strings.Contains(tok.Code, "callProvider("+goFn+", "+args+")"), "call: provider called with the arguments verbatim")
+			}
+			vfAssert(strings.Contains(tok.Code, vfQuote("cannot execute "+c)), "call: failure names the token")
+		}
+		vfAssert(tok.Raw == c, "token keeps the raw chunk")
+	}
+	vfReach("C03_kind")
+}
+
+// VF_C03_gocode: one token -> provider of that token (type preserved);
+// several -> concatenateChunks over the tokens in order.
+func VF_C03_gocode() {
+	n := vfChoice("ntokens", 4)
+	var tk Tokens
+	for i := 0; i < n; i++ {
+		tk = append(tk, Token{Code: vfString("code")})
+	}
+	code, err := tk.GoCode()
+	if n == 0 {
+		vfAssert(err != nil, "empty token list is an error")
+		vfReach("C03_gocode")
+		return
+	}
+	vfAssert(err == nil, "non-empty token list compiles")
+	if n == 1 {
+		vfAssert(code == "dependencyProvider("+tk[0].Code+")", "single token: provider of the token itself")
+		vfAssert(!strings.Contains(code, "concatenateChunks") || strings.Contains(tk[0].Code, "concatenateChunks"), "single token is not concatenated")
+	} else {
+		parts := make([]string, 0)
+		for _, t := range tk {
+			parts = append(parts, t.Code)
+		}
+		vfAssert(strings.Contains(code, "concatenateChunks("+strings.Join(parts, ", ")+")"), "several tokens: concatenated in order")
+		vfAssert(strings.HasPrefix(code, "dependencyProvider(func"), "several tokens: wrapped in a provider")
+	}
+	vfReach("C03_gocode")
+}
+
+func vfDoublePercent(t string) string {
+	out := ""
+	for _, r := range t {
+		c := string(r)
+		if c == "%" {
+			out += "%%"
+		} else {
+			out += c
+		}
+	}
+	return out
+}
+
+// VF_C03_double: a string whose every % is doubled tokenizes without error or
+// dependency and its tokens mean the original string.
+func VF_C03_double() {
+	t := vfString("t")
+	vfAssume(vfRuneLen(t) <= vfBound("double.len", 4, 6))
+	s := vfDoublePercent(t)
+	tz := NewTokenizer(NewChunker(), vfFactory(""))
+	tks, err := tz.Tokenize(s)
+	vfAssert(err == nil, "doubled % never errors")
+	if err == nil {
+		meaning := ""
+		for _, tk := range tks {
+			vfAssert(len(tk.DependsOn) == 0, "doubled %: no dependency")
+			vfAssert(tk.Kind == KindString, "doubled %: only string tokens")
+			if tk.Raw == "%%" {
+				meaning += "%"
+				vfAssert(strings.Contains(tk.Code, "return \"%\", nil"), "doubled %: %% token yields %")
+			} else {
+				meaning += tk.Raw
+				vfAssert(strings.Contains(tk.Code, "return "+vfQuote(tk.Raw)+", nil"), "doubled %: literal token yields its text")
+			}
+		}
+		if t == "" {
+			vfAssert(len(tks) == 1 && tks[0].Raw == "", "empty string: one empty token")
+		}
+		vfAssert(meaning == t, "doubled %: tokens mean the original string")
+	}
+	vfReach("C03_double")
+}
+
+// VF_C03_tokenize: Tokenize = Chunks then Create per chunk, errors joined,
+// dependencies in chunk order.
+func VF_C03_tokenize() {
+	s := vfString("s")
+	vfAssume(vfRuneLen(s) <= vfBound("tokenize.len", 4, 6))
+	tz := NewTokenizer(NewChunker(), vfFactory(""))
+	tks, err := tz.Tokenize(s)
+	want, bad := refChunks(s)
+	if bad {
+		vfAssert(err != nil, "unbalanced % is rejected")
+		vfReach("C03_tokenize_bad")
+		return
+	}
+	anyBad := false
+	var deps []string
+	for _, c := range want {
+		k, name, _ := refKind(c, []string{"env", "envInt", "todo"})
+		if k == refErrFunc || k == refErrToken {
+			anyBad = true
+		}
+		if k == refReference {
+			deps = append(deps, name)
+		}
+	}
+	vfAssert(anyBad == (err != nil), "rejected iff some chunk is an unknown function or malformed token")
+	if err == nil {
+		vfAssert(len(tks) == len(want), "one token per chunk")
+		var got []string
+		for _, t := range tks {
+			got = append(got, t.DependsOn...)
+		}
+		vfAssert(vfEqStrings(got, deps), "dependencies are the referenced parameters in order")
+	}
+	vfReach("C03_tokenize")
+}
